@@ -26,6 +26,10 @@ def context_programs(tier):
                              'children': ['k']}), []))
     out.append(('comment', doc({'comment': ['a', R('c', 'v<'), 'b'], 'kind': ''}, 't'), []))
     out.append(('comment-q', doc({'comment': ['a', R('c'), 'b'], 'kind': '?'}, 't'), []))
+    # a <!--? comment whose text starts with characters of the marker itself
+    out.append(('comment-q-leading-marker-characters', doc({'comment': ['<b>', R('c'), '</b>'], 'kind': '?'}, 's',
+                                                           {'comment': ['!x'], 'kind': '?'}, {'comment': ['?-x'], 'kind': '?'},
+                                                           {'comment': ['-x'], 'kind': '?'}, 't'), []))
     out.append(('comment-bang', doc({'comment': ['a', R('c'), 'b'], 'kind': '!'}, 't'), []))
     out.append(('cdata', doc({'cdata': ['a', R('d', 'v<&'), 'b']}, 't'), []))
     # character entities in an expression are decoded before evaluation also in comments and CDATA sections
